@@ -191,7 +191,7 @@ func (w *World) instrWrites(ins ssa.Instruction, fn *ssa.Function) []writeEvent 
 		}
 		add(w.storeKey(x.Addr), x.Addr)
 	case *ssa.MapUpdate:
-		out = append(out, writeEvent{key: "map", root: rootInfo{kind: rootOther}, at: ins})
+		out = append(out, writeEvent{key: "$s:map", root: rootInfo{kind: rootOther}, at: ins})
 	case ssa.CallInstruction:
 		c := x.Common()
 		if c.IsInvoke() {
@@ -225,7 +225,7 @@ func (w *World) instrWrites(ins ssa.Instruction, fn *ssa.Function) []writeEvent 
 					add(w.keysOfType(st.Elem()), c.Args[0])
 				}
 			case "delete":
-				out = append(out, writeEvent{key: "map", root: rootInfo{kind: rootOther}, at: ins})
+				out = append(out, writeEvent{key: "$s:map", root: rootInfo{kind: rootOther}, at: ins})
 			}
 		case *ssa.Function:
 			if we, isLib := w.WE[cv]; isLib {
